@@ -58,7 +58,12 @@ def c20_get_note(ti: int, s: int, f: int) -> bool:
     if 0 <= s < len(opens) and 0 <= f <= 24:
         s = enum(s, 0, len(opens))
         n = t.get_Note(s, f)
-        return int(n) == opens[s] + f and n.string == s and n.fret == f
+        if not (int(n) == opens[s] + f and n.string == s and n.fret == f):
+            return False
+        # the returned note is the caller's: changing it must not retune the registered tuning
+        n.octave = n.octave + 1
+        n.name = "C"
+        return _open(t) == opens
     return raises_(RangeError, t.get_Note, s, f)
 
 
